@@ -135,3 +135,18 @@ Example checker_rejects_fee_from_last_signer :
   PBb (bmk e0 [bm1; bm2] (BDone [Ok; Ok]) b2s
          (bank_of [1000000000000; 52507; 1; 50; 0; 0; 100; 0; 0; 1000; 1000000079000; 999999868499] 9000000000000)) = false.
 Proof. vm_compute. reflexivity. Qed.
+
+(** a factory (12) pays 3 unibi to the address (13) of its next creation and then creates there with an endowment
+    of 7 unibi: when the init code fails only the 3 unibi stay, when it succeeds all 10 do; supply unchanged.  A
+    measurement in which the failed creation's endowment stays at the address AND returns to the factory is refused. *)
+Definition b3 : bank := bank_of [1000000000000; 7; 0; 50; 0; 0; 100; 0; 0; 1000; 0; 0; 1000000; 0] 5000000000000.
+Definition t_fact_fail := mktx (legacy 1000000000000) 721000 0 12%nat (EvmOk [OTransfer 12 13 3000000000000]) 88599.
+Definition t_fact_ok := mktx (legacy 1000000000000) 721000 0 12%nat
+  (EvmOk [OTransfer 12 13 3000000000000; OTransfer 12 13 7000000000000]) 88891.
+
+Example factory_nonvacuous :
+  map (bal (fst (deliver e0 b3 t_fact_fail))) [12; 13]%nat = [999997; 3] /\ supply (fst (deliver e0 b3 t_fact_fail)) = 5000000000000 /\
+  map (bal (fst (deliver e0 b3 t_fact_ok))) [12; 13]%nat = [999990; 10] /\ supply (fst (deliver e0 b3 t_fact_ok)) = 5000000000000 /\
+  Pb {| m_env := e0; m_tx := t_fact_fail; m_out := Ok; m_before := b3;
+        m_after := bank_of [999999911401; 88606; 0; 50; 0; 0; 100; 0; 0; 1000; 0; 0; 999997; 10] 5000000000007 |} = false.
+Proof. vm_compute. repeat split; reflexivity. Qed.
